@@ -130,6 +130,44 @@ def _gate(n, k1, k2, k3, fam, late_read, disconnect):
     return head[:3] == b"20 "
 
 
+def chain_twice(a1: int, a2: int, b1: int, b2: int, fam1: int, fam2: int) -> bool:
+    """
+    pre: 0 <= a1 <= 2 and 0 <= a2 <= 2 and 0 <= b1 <= 2 and 0 <= b2 <= 2
+    pre: 0 <= fam1 <= 2 and 0 <= fam2 <= 2
+    post: _
+    """
+    # the server builds ONE chain and consults it for every connection: the second connection is judged by what the
+    # components say THEN (they are stateful by design: rate limits, changed lists), never by a remembered verdict
+    log = _Log()
+    comps = [_Comp(0, ALLOW, log), _Comp(1, ALLOW, log)]
+    chain = MiddlewareChain(comps)
+    hs = _Handlers(log)
+    for kinds, fam in (((a1, a2), fam1), ((b1, b2), fam2)):
+        del log.ev[:]
+        comps[0].kind, comps[1].kind = kinds
+        p, t, loop = make(hs, chain, hs)
+        p.data_received(mk(REQS[fam]))
+        loop.run_ready()
+        ran = [e for e in log.ev if e[0] in ("handler", "upload")]
+        exp = _expected(list(kinds))
+        data, closes, late = wire_response(t)
+        if late or closes < 1 or len(ran) > 1:
+            return V(False)
+        head = data.segs[0]
+        consulted = [e[1] for e in log.ev if e[0] == "start"]
+        if exp == ("served",):
+            if len(ran) != 1 or head[:3] != b"20 " or consulted != [0, 1]:
+                return V(False)
+        else:
+            if ran or consulted != list(range(exp[1] + 1)):
+                return V(False)
+            if exp[0] == "deny" and bytes(head) != ("5%d refused by component %d\r\n" % (3 + exp[1], exp[1])).encode():
+                return V(False)
+            if exp[0] == "raise" and head[:3] != b"40 ":
+                return V(False)
+    return V(True)
+
+
 def gate_gemini(n: int, k1: int, k2: int, k3: int, late_read: bool, disconnect: bool) -> bool:
     """
     pre: 1 <= n <= 3 and 0 <= k1 <= 4 and 0 <= k2 <= 4 and 0 <= k3 <= 4
@@ -279,6 +317,10 @@ OBLIGATIONS = [
        functions=FN, stubs=["FakeTransport", "MiniLoop", "scripted components"]),
     Ob("gate_titan", gate_titan, quick=400, thorough=1200,
        symbolic="as gate_gemini for Titan upload / delete", functions=FN, stubs=["FakeTransport", "MiniLoop", "scripted components"]),
+    Ob("chain_twice", chain_twice, quick=300, thorough=600,
+       symbolic="two connections consulting ONE MiddlewareChain object: outcome of each of 2 components (allow / deny / raise) on the "
+                "first and on the second connection, request family of each (gemini / titan upload / titan delete)",
+       functions=FN, stubs=["FakeTransport", "MiniLoop", "scripted components"]),
     Ob("gate_invalid", gate_invalid, quick=200, thorough=600,
        symbolic="1..2 components, invalid request line (fragment)", functions=FN, stubs=["FakeTransport", "MiniLoop"]),
     Ob("args_plain", args_plain, quick=300, thorough=900,
